@@ -473,7 +473,7 @@ func ruleStatusTable(c *chk.Ctx) {
 		name string
 	}
 	var flags []flagStore
-	ir.Instrs(ws, func(ins ssa.Instruction) {
+	c.P.ExtInstrs(ws, func(ins ssa.Instruction) {
 		st, ok := ins.(*ssa.Store)
 		if !ok {
 			return
@@ -591,12 +591,7 @@ func closedGoverned(c *chk.Ctx, b *ssa.BasicBlock, sentinel *ssa.Global) bool {
 // half-alive owner behind.
 func ruleReaderExitStops(c *chk.Ctx, owner string) {
 	stop := stopFunc(c, owner)
-	var reader *ssa.Function
-	for _, s := range chanSites(c, "Recv") {
-		if ir.RecvNamed(s.fn) == ownerType(c, owner) {
-			reader = s.fn
-		}
-	}
+	reader, _ := readerOf(c, owner)
 	if stop == nil || reader == nil {
 		c.Undecided("RUN.readerexit", nil, owner+" reader", 0, "reader or stop function not resolved")
 		return
